@@ -177,10 +177,7 @@ def run(ctx, report: Report) -> None:
                          f'FORGIVE for :is/:where, nothing for :matches)')
 
     # ---- R5 ----------------------------------------------------------------------------------------------
-    r5 = report.rule('C05-R5', 'comma resets per-alternative state; implied universal has one guard', floor=3)
-    from .c01 import comma_reset_rule
-    from .c12 import implied_universal_rule
-    comma_reset_rule(ctx, r5)
-    implied_universal_rule(ctx, r5)
-    for f in r5.findings:
-        f.rule = 'C05-R5'
+    r5 = report.rule('C05-R5', 'comma resets per-alternative state; implied universal selector (parsed token sequences)', floor=10)
+    from .sem import comma_tables, implied_universal_tables
+    comma_tables(ctx, r5)
+    implied_universal_tables(ctx, r5)
